@@ -132,6 +132,27 @@ def _one_row_added(v, b, F, row_is, home):
     ]
 
 
+HEADER = "match:[#\\s]+(.+)"
+
+
+def _header_post(v, b, agp):
+    """C05: header lines survive a round trip - a comment line ('#...', in AGP not '##...') whose text is not blank adds
+    exactly that text (what follows the leading '#' and white space) to the header; every other line leaves it alone"""
+    L = b.line
+    h0, h1 = b.asm.header, v.asm.header
+    is_comment = z3.And(z3.Not(blank(L)), z3.PrefixOf(sv("#"), L))
+    if agp:
+        is_comment = z3.And(is_comment, z3.Not(z3.PrefixOf(sv("##"), L)))
+    has_text = smt.bool_fn(f"re.match({HEADER!r})")(L)
+    text = smt.str_fn(f"re.group({HEADER!r},1)")(L)
+    adds = z3.And(is_comment, has_text)
+    kept = forall(lambda k: z3.Implies(z3.And(0 <= k, k < h0.len), h1[k] == h0[k]))
+    return [
+        ("header-line-recorded", z3.Implies(adds, z3.And(h1.len == h0.len + 1, h1[h0.len] == text, kept))),
+        ("header-otherwise-unchanged", z3.Implies(z3.Not(adds), z3.And(h1.len == h0.len, kept))),
+    ]
+
+
 def _nothing_added(v, b):
     none1, ref1, sc1 = cur_scaffold(v)
     none0, ref0, sc0 = cur_scaffold(b)
@@ -178,6 +199,7 @@ class _:
                 *[(lbl, z3.Implies(z3.Or(blank(L), z3.PrefixOf(sv("#"), L)), f)) for lbl, f in _nothing_added(v, b)],
                 *[(lbl, z3.Implies(z3.And(z3.Not(blank(L)), z3.Not(z3.PrefixOf(sv("#"), L))), f))
                   for lbl, f in _one_row_added(v, b, agp_fields(L), agp_row_is, 0)],
+                *_header_post(v, b, True),
             ])(b.line),
             frame=lambda v, e: {"$fresh-only": ["H.Scaffold.name", "H.Scaffold.rows", "H.Scaffold.tag", "H.Scaffold.haplotype", "H.Scaffold.rank",
                                                 "H.Scaffold.original_name", "H.Scaffold.original_tags", "H.$class",
@@ -241,6 +263,7 @@ def _tpf_line_post(v, b):
     if sc1 is not None:
         out += [(lbl, z3.Implies(z3.And(data, z3.Not(is_gap)), f)) for lbl, f in _one_row_added(v, b, F, tpf_row_is, 2)]
         out.append(("four-columns", z3.Implies(z3.And(data, z3.Not(is_gap)), z3.Length(F) == 4)))
+    out += _header_post(v, b, False)
     return out
 
 
